@@ -49,7 +49,7 @@ impl Prop for C07 {
         "one case = (world, operation history) drawn from (seed, run index); distinct = distinct hash of the literal world+history; non-trivial = the history produced a token after a set_offset, or called next() after None, or a peek returned matches"
     }
     fn runs(&self) -> (u64, u64) {
-        (150_000, 4_000_000)
+        (300_000, 10_000_000)
     }
     fn expected_probes(&self) -> &'static [&'static str] {
         &[
